@@ -111,9 +111,57 @@ Section Equiv.
     - reflexivity.
     - symmetry. apply eqk_sound. exact H.
   Qed.
+
+  (* ---------------------------------------------------------------- whole histories on the translated source *)
+  (* a statistic walks through a sequence of epochs: update_epoch, then read S, with the TRANSLATED methods *)
+  Fixpoint gwalk (s : sspace) (eps : list Epoch) : sspace * list Mx :=
+    match eps with
+    | [] => (s, [])
+    | e :: rest =>
+        let '(s1, m) := StateSpace_S Epoch Tr Mx eqk trans_of mat_of (StateSpace_update_epoch Epoch Tr Mx eqk s e) in
+        let '(s2, ms) := gwalk s1 rest in
+        (s2, m :: ms)
+    end.
+
+  Definition gstep (s : sspace) (o : op Epoch) : sspace * list Mx :=
+    match o with
+    | OQuery _ eps => gwalk s eps
+    | OUpdate _ e => (StateSpace_update_epoch Epoch Tr Mx eqk s e, [])
+    | ODropS _ => (StateSpace_drop_S Epoch Tr Mx s, [])
+    | ODropCache _ => (StateSpace_drop_cache Epoch Tr Mx s, [])
+    | OSetFlag _ b => (set_flag Epoch Tr Mx s b, [])
+    end.
+
+  Fixpoint grun (s : sspace) (ops : list (op Epoch)) : sspace * list (list Mx) :=
+    match ops with
+    | [] => (s, [])
+    | o :: rest => let '(s1, out) := gstep s o in let '(s2, outs) := grun s1 rest in (s2, out :: outs)
+    end.
+
+  Lemma gwalk_eq : forall eps s, gwalk s eps = walk Epoch Tr Mx eqk trans_of mat_of s eps.
+  Proof.
+    induction eps as [|e rest IH]; intros s; [reflexivity|].
+    cbn [gwalk walk]. rewrite gen_update_epoch_eq, gen_S_eq.
+    destruct (get_S Epoch Tr Mx eqk trans_of mat_of (update_epoch Epoch Tr Mx eqk s e)) as [s1 m]. rewrite IH. reflexivity.
+  Qed.
+
+  Lemma gstep_eq : forall o s, gstep s o = step Epoch Tr Mx eqk trans_of mat_of s o.
+  Proof. intros [eps|e| | |b] s; cbn [gstep step]; [apply gwalk_eq | rewrite gen_update_epoch_eq; reflexivity | reflexivity | reflexivity | reflexivity]. Qed.
+
+  Lemma grun_eq : forall ops s, grun s ops = run Epoch Tr Mx eqk trans_of mat_of s ops.
+  Proof.
+    induction ops as [|o rest IH]; intros s; [reflexivity|]. cbn [grun run]. rewrite gstep_eq.
+    destruct (step Epoch Tr Mx eqk trans_of mat_of s o) as [s1 out]. rewrite IH. reflexivity.
+  Qed.
+
+  (* ANY history of queries, epoch updates, drops and flag changes on the translated source returns what fresh objects return *)
+  Theorem source_any_history_same_answer : forall ops e flag,
+    snd (grun (StateSpace_init Epoch Tr Mx e flag) ops) = map (pure Epoch Tr Mx trans_of mat_of) ops.
+  Proof. intros ops e flag. rewrite grun_eq, gen_init_eq. apply (any_history_same_answer Epoch Tr Mx eqk trans_of mat_of eqk_sound). Qed.
 End Equiv.
 
 Print Assumptions gen_update_epoch_eq.
 Print Assumptions gen_S_eq.
 Print Assumptions source_S_is_pure.
 Print Assumptions gen_states_inv.
+Print Assumptions source_any_history_same_answer.
